@@ -348,7 +348,7 @@ pub fn run(ctx: &Ctx) -> i32 {
         acc = Acc::merge(acc, a);
     }
     rep.rule = format!(
-        "datum d -> format!(\"{{:#}}\") -> parse_text -> d' must be one datum identical to d in structure, value and exactness, and write(d') = write(d); Vm::eval((quote d)) must return d. Enumerated: every Unicode scalar value as a character, as a one-character string and as a list element; all strings of <= 3 characters over {:?}; {} exact numbers (integers k*2^e+d around the fixnum/bignum boundary, the C08 palette in every representation, reduced rationals); doubles structurally exhaustively: every exponent field x {} mantissa patterns x both signs = {} plus {} special values; every token of <= 3 characters over a 23-character alphabet (<= 2 over 27) that the reader classifies as a symbol; every scalar value as a one-character symbol name and as the first / second character of a two-character name, interned as string->symbol does (3.3 M symbols); all container chains of depth <= {} over 12 one-hole shapes x {} leaves; all trees of <= {} nodes over 6 atoms. A case is non-trivial when the full trip succeeded; cases are distinct data.",
+        "datum d -> format!(\"{{:#}}\") -> parse_text -> d' must be one datum identical to d in structure, value and exactness, and write(d') = write(d); Vm::eval((quote d)) must return d. Enumerated: every Unicode scalar value as a character, as a one-character string and as a list element; all strings of <= 3 characters over {:?}; {} exact numbers (integers k*2^e+d around the fixnum/bignum boundary, the C08 palette in every representation, reduced rationals); doubles structurally exhaustively: every exponent field x {} mantissa patterns x both signs = {} plus {} special values; every token of <= 3 characters over a 23-character alphabet (<= 2 over 27) that the reader classifies as a symbol; every scalar value as a one-character symbol name and as the first / second character of a two-character name, interned as string->symbol does (3.3 M symbols); all container chains of depth <= {} over 13 one-hole shapes x {} leaves; all trees of <= {} nodes over 6 atoms. A case is non-trivial when the full trip succeeded; cases are distinct data.",
         STR_CHARS, n_ints, 24, nd, specials.len(), depth, n_leaves, ctx.tier.pick(3, 4)
     );
     rep.assumptions.push("infinities and NaN are outside the property; of the 2^63 finite doubles the structured set above is covered, the rest is not claimed".into());
